@@ -26,6 +26,9 @@ SAMPLE_FAULTS = ['ok', 'notfound', 'few', 'fraction-neg', 'fraction-big', 'units
                  'mef-nocurve', 'mef-nocolumn', 'other-instrument', 'amp-differs', 'voltage-differs', 'notfound-below-a-file', 'notfound-name-too-long']
 BEAD_FAULTS = ['ok', 'notfound', 'few', 'fraction-neg', 'fraction-big', 'unequal-mef', 'unequal-mef-3ch', 'notfound-below-a-file']
 
+# value menus of the two faults that carry a value: near misses of the recognised unit spellings, fractions just outside [0, 1]
+BAD_UNITS = ['a.u', 'A', 'u.', ' ', 'a', 'au.', '.', 'rf', 'RFIs', 'me', 'MEFL', 'chan', 'Channels', 'a.u.au', 'a u', 'M E F', 'R', 'none', '0', '1.5']
+BAD_FRACTIONS = [-0.0005, -1e-6, -1e-12, 1.0000001, 1.0005, 2.0, 100.0, -1.0, -5e-324]
 I3 = dict(wg.instrument(0, nfl=3), id='INST3')       # three fluorescence channels (ragged MEF value counts need >= 3)
 I1 = wg.instrument(0)          # FSC-H SSC-H FL1-H FL2-H Time
 I2 = wg.instrument(1)          # FSC-A ...
@@ -89,6 +92,12 @@ def sample_row(pos, fault):
         r['units'] = {FL1: 'RFI', FL2: fl2_units}
     if fault == 'ok':
         return r
+    if fault.startswith('units='):
+        r['units'] = {FL1: 'RFI', FL2: fault[6:]}
+        return r
+    if fault.startswith('fraction='):
+        r['gate_fraction'] = float(fault[9:])
+        return r
     if fault == 'notfound':
         r['file'] = 'no_such_file_%d.fcs' % pos
     elif fault == 'notfound-below-a-file':
@@ -128,6 +137,9 @@ def bead_row(pos, fault):
     r = dict(id='B%d' % (pos + 1), inst='INST1', file='beads_ok.fcs', gate_fraction=[0.3, 0.5, 0.4, 0.35][pos % 4],
              cluster=[FL1, '%s, %s' % (FL1, FL2), FL2, FL1][pos % 4], mef={FL1: wg.mef_string(t, 0), FL2: wg.mef_string(t, 1)})
     if fault == 'ok':
+        return r
+    if fault.startswith('fraction='):
+        r['gate_fraction'] = float(fault[9:])
         return r
     if fault == 'notfound':
         r['file'] = 'missing_beads_%d.fcs' % pos
@@ -211,8 +223,14 @@ def cases(tier, seed):
         for perm in itertools.permutations(range(R)):
             if list(perm) != list(range(R)):
                 yield dict(kind='samples', rows=['ok'] * R, order=list(perm))
+    for f in ['units=' + u for u in BAD_UNITS] + ['fraction=%r' % x for x in BAD_FRACTIONS]:
+        for rows in ([f], ['ok', f], [f, 'ok'], ['ok', f, 'ok']) if tier == 'thorough' else ([f], [f, 'ok']):
+            yield dict(kind='samples', rows=rows)
     B = BEAD_FAULTS
     yield dict(kind='beads', rows=[])
+    for f in ['fraction=%r' % x for x in BAD_FRACTIONS]:
+        for rows in ([f], ['ok', f], [f, 'ok']) if tier == 'thorough' else (['ok', f],):
+            yield dict(kind='beads', rows=rows)
     for R in ((1, 2) if tier == 'quick' else (1, 2, 3)):
         for assign in itertools.product(range(len(B)), repeat=R):
             yield dict(kind='beads', rows=[B[a] for a in assign])
@@ -223,7 +241,7 @@ def cases(tier, seed):
 
 
 def bounds(tier, seed):
-    return {'sample_fault_kinds': SAMPLE_FAULTS, 'bead_fault_kinds': BEAD_FAULTS,
+    return {'sample_fault_kinds': SAMPLE_FAULTS, 'bead_fault_kinds': BEAD_FAULTS, 'unrecognised_units_menu': BAD_UNITS, 'fractions_outside_menu': BAD_FRACTIONS,
             'sample_tables': 'R<=2 complete, R=3 with <=1 fault' if tier == 'quick' else 'R<=3 complete, R=4 with <=2 faults, R=5 with <=1 fault',
             'bead_tables': 'R<=2 complete' if tier == 'quick' else 'R<=3 complete, R=4 with <=1 fault'}
 
